@@ -407,7 +407,15 @@ def sym_saw_twin(c, cmode, amode):
         clf.classes_ = np.arange(2)
         inner = pl.pool().UncertaintySampling(method="least_confident", random_state=s.seed)
         w = P.SingleAnnotatorWrapper(strategy=inner, random_state=s.seed)
-        outs.append(w.query(s.X, s.y, candidates=s.cand, annotators=s.annot, batch_size=2, return_utilities=True, clf=clf, fit_clf=True))
+        # (an availability row without annotators makes the wrapper loop forever: open finding of C07; bounded here by the
+        #  same CPU-time alarm and left to C07)
+        C07._alarm(2)
+        try:
+            outs.append(w.query(s.X, s.y, candidates=s.cand, annotators=s.annot, batch_size=2, return_utilities=True, clf=clf, fit_clf=True))
+        except C07.Timeout:
+            raise core.PathAbort("SingleAnnotatorWrapper.query does not terminate (C07)")
+        finally:
+            C07._alarm_off()
     def flat_idx(o):
         return [int(v) for v in arrays.raw(arrays.asnd(o[0])).reshape(-1)]
     same = flat_idx(outs[0]) == flat_idx(outs[1])
@@ -438,8 +446,14 @@ def replay_saw_twin(inputs, label, cmode, amode):
                 np.random.seed(g)
                 inner = pl.pool().UncertaintySampling(method="least_confident", random_state=seed)
                 w = P.SingleAnnotatorWrapper(strategy=inner, random_state=seed)
-                o = w.query(X, y, candidates=cand, annotators=annot, batch_size=2, return_utilities=True,
-                            clf=ParzenWindowClassifier(classes=[0, 1], random_state=seed), fit_clf=True)
+                C07._alarm(5)
+                try:
+                    o = w.query(X, y, candidates=cand, annotators=annot, batch_size=2, return_utilities=True,
+                                clf=ParzenWindowClassifier(classes=[0, 1], random_state=seed), fit_clf=True)
+                except C07.Timeout:
+                    return False, "query does not terminate on these inputs (C07)"
+                finally:
+                    C07._alarm_off()
                 outs.append((np.asarray(o[0]).tolist(), np.round(np.asarray(o[1], dtype=float), 9).tolist()))
             if any(repr(o) != repr(outs[0]) for o in outs):
                 return True, (f"SingleAnnotatorWrapper(UncertaintySampling, random_state={seed}).query on {len(X)} samples with "
